@@ -34,7 +34,9 @@ SPEC = {
 
 KINDS = ['date', 'description', 'amount', 'location', 'ca', 'cb', 'skip']
 DATE_FORMATS = [None, '%d  %b  %y', '%d\t%b %y', '%d %b  %y', '%b %d,  %Y', '%b %d, %Y', '%A, %d %B %Y', '%A, %B %d, %Y', '%a, %d %b, %Y, %H:%M', '%d,%m,%Y', '%m/%d/%Y', '%Y-%m-%d', '%d.%m.%Y', '%d %b %y', '%m/%d/%y', '%Y%m%d', '%d-%b-%Y %H:%M']
-CUSTOM_NAMES = [('type', 'merchant'), ('Cardholder', 'memo'), ('txn_type', 'Payee2'), ('a', 'b'), ('_memo', '_type'), ('_id', 'ref_'), ('__', 'x_'), ('Stra\u00dfe', 'Gr\u00f6\u00dfe'), ('\u017fee', 'o\ufb01')]
+CUSTOM_NAMES = [('type', 'merchant'), ('Cardholder', 'memo'), ('txn_type', 'Payee2'), ('a', 'b'), ('_memo', '_type'), ('_id', 'ref_'), ('__', 'x_'), ('Stra\u00dfe', 'Gr\u00f6\u00dfe'), ('\u017fee', 'o\ufb01'),
+                # column names that start with a digit (pay-slip and tax exports: 401k, 1099_box, 2nd_ref)
+                ('401k', '2nd_ref'), ('1099_box', 'ref2'), ('7', 'x9')]
 
 
 def model(seq, template, names):
